@@ -115,6 +115,16 @@ SCENARIOS = {
             "bad_byte": ({b"\x01\x02": [("E", "F", b"\x01\x00\x10\x20")], b"\x01\x03": [("E", "F", b"\x01\x00\x10\x20")]}, [], "error"),
         },
     ),
+    "same_type_two_senders": dict(
+        # the same message type may come from either of two parties at the same point: only the actual deliverer tells them apart
+        body='<start> ::= <F:E:go> (<E:F:pong> | <G:F:pong>) <F:E:fin>\n<go> ::= "go"\n<pong> ::= "po" r"[12]"\n<fin> ::= "."\n',
+        msgs={"go": ("F", "E", r"go"), "pong": (("E", "G"), "F", r"po[12]"), "fin": ("F", "E", r"\.")},
+        lang=Seq((Lit("go;"), Lit("pong;"), Lit("fin;"))),
+        scripts={
+            "from_e": ({"go": [("E", "F", "po1")]}, [], "complete"),
+            "from_g": ({"go": [("G", "F", "po2")]}, [], "complete"),
+        },
+    ),
     "two_peers": dict(
         body='<start> ::= <F:E:go> (<E:F:e1> <G:F:g1> | <G:F:g1> <E:F:e1>) <F:G:end>\n<go> ::= "go"\n<e1> ::= "e" r"[12]"\n<g1> ::= "g" r"[12]"\n<end> ::= "."\n',
         msgs={"go": ("F", "E", r"go"), "e1": ("E", "F", r"e[12]"), "g1": ("G", "F", r"g[12]"), "end": ("F", "G", r"\.")},
@@ -216,6 +226,8 @@ def judge(task, ch, sc, expect, trees, out):
                 out["viol"].append(dict(base, kind="unknown_message_type_in_tree", message=name, sig="unknown_message_type_in_tree"))
                 return
             snd, rcp, pat = msgs[name]
+            if isinstance(snd, tuple):  # a type that several parties may send at this point: the claimed sender is judged against what that party delivered
+                snd = m.sender if m.sender in snd else snd[0]
             if (m.sender, m.recipient) != (snd, rcp):
                 out["viol"].append(dict(base, kind="message_attributed_to_wrong_party", message=name, got=[m.sender, m.recipient], want=[snd, rcp],
                                         sig=f"wrong_attribution:{name}"))
